@@ -75,6 +75,7 @@ def openB : Frame → Bool
   | .pDelete _ | .joinClr _ | .cArm _ | .evJoined _ | .evResult _ | .destroyF _ => false
   | .pStore _ | .pSetRd _ | .pSetX _ _ | .pSig _ => false
   | .sRstLock σ | .sRstStore σ | .sRstUnlock σ | .sWaitUnlock σ | .sSetLock σ | .sSetStore σ => decide (σ < 2)
+  | .sSetUnlock σ | .sSetBcast σ _ | .sWaitLock σ | .sWaitChk σ | .sWaitCwait σ | .sWaitCwake σ | .sWaitRelock σ => decide (σ < 2)
   | _ => true
 
 /-- `b` is a continuation of `join()` of future `f` -/
@@ -146,18 +147,25 @@ structure HsShapeQ (s s' : State) (t : Tid) (fr : Frame) (rest : List Frame) : P
   sigs : ∀ σ, 2 ≤ σ → (s'.sigs σ).signaled = (s.sigs σ).signaled
   compl : s'.completed = s.completed
   ev : s'.everCalls = s.everCalls
-  nc : s'.nextCall = s.nextCall
-  calls : ∀ c r, s'.calls c = some r → s.calls c = some r
+  top : ∃ th', s'.threads t = some th' ∧ ∀ x, th'.stack.head? = some x → dull x = true
+  pre : ∃ th', s'.threads t = some th' ∧
+      ∀ c, (∃ x ∈ th'.stack, hsPreArm c x = true) ↔ (∃ x ∈ fr :: rest, hsPreArm c x = true)
+
+structure HsShapeQa (s s' : State) : Prop where
+  futs : s'.futs = s.futs
+  sigs : ∀ σ, 2 ≤ σ → (s'.sigs σ).signaled = (s.sigs σ).signaled
+  compl : s'.completed = s.completed
+  ev : s'.everCalls = s.everCalls
+
+structure HsShapeQb (s s' : State) (t : Tid) (fr : Frame) (rest : List Frame) : Prop where
   top : ∃ th', s'.threads t = some th' ∧ ∀ x, th'.stack.head? = some x → dull x = true
   pre : ∃ th', s'.threads t = some th' ∧
       ∀ c, (∃ x ∈ th'.stack, hsPreArm c x = true) ↔ (∃ x ∈ fr :: rest, hsPreArm c x = true)
 
 set_option maxHeartbeats 8000000 in
-theorem hsShapeQ (s : State) (t : Tid) (th : Thread) (fr : Frame) (rest : List Frame)
-    (hth : s.threads t = some th) (hst : th.stack = fr :: rest) (hq : quiet fr = true)
-    (hlink : RelO s.everCalls (kindA fr) rest.head?) :
-    HsShapeQ s (stepFrame s t th fr).1 t fr rest := by
-  cases fr <;> simp only [quiet, Bool.false_eq_true, decide_eq_true_eq] at hq <;> simp only [kindA] at hlink <;>
+theorem hsShapeQa (s : State) (t : Tid) (th : Thread) (fr : Frame) (hq : quiet fr = true) :
+    HsShapeQa s (stepFrame s t th fr).1 := by
+  cases fr <;> simp only [quiet, Bool.false_eq_true, decide_eq_true_eq] at hq <;>
     simp only [stepFrame] <;> repeat' split
   all_goals
     constructor
@@ -167,10 +175,16 @@ theorem hsShapeQ (s : State) (t : Tid) (th : Thread) (fr : Frame) (rest : List F
       try grind
     · simp [setThread, setSig, setPool, setFut, withFault, destroySig]
     · simp [setThread, setSig, setPool, setFut, withFault, destroySig]
-    · simp [setThread, setSig, setPool, setFut, withFault, destroySig]
-    · intro c r
-      simp [setThread, setSig, setPool, setFut, withFault, destroySig, upd]
-      try grind
+
+set_option maxHeartbeats 8000000 in
+theorem hsShapeQb (s : State) (t : Tid) (th : Thread) (fr : Frame) (rest : List Frame)
+    (hth : s.threads t = some th) (hst : th.stack = fr :: rest) (hq : quiet fr = true)
+    (hlink : RelO s.everCalls (kindA fr) rest.head?) :
+    HsShapeQb s (stepFrame s t th fr).1 t fr rest := by
+  cases fr <;> simp only [quiet, Bool.false_eq_true, decide_eq_true_eq] at hq <;> simp only [kindA] at hlink <;>
+    simp only [stepFrame] <;> repeat' split
+  all_goals
+    constructor
     · simp [setThread, setSig, setPool, setFut, withFault, destroySig, upd_same, Thread.cont, hst, hth, dull, hq]
       try (intro x hx; rw [hx] at hlink
            first
@@ -184,5 +198,13 @@ theorem hsShapeQ (s : State) (t : Tid) (th : Thread) (fr : Frame) (rest : List F
            cases rest with
            | nil => cases hx
            | cons a l => simp [RelO] at hlink)
+
+theorem hsShapeQ (s : State) (t : Tid) (th : Thread) (fr : Frame) (rest : List Frame)
+    (hth : s.threads t = some th) (hst : th.stack = fr :: rest) (hq : quiet fr = true)
+    (hlink : RelO s.everCalls (kindA fr) rest.head?) :
+    HsShapeQ s (stepFrame s t th fr).1 t fr rest :=
+  have ha := hsShapeQa s t th fr hq
+  have hb := hsShapeQb s t th fr rest hth hst hq hlink
+  ⟨ha.futs, ha.sigs, ha.compl, ha.ev, hb.top, hb.pre⟩
 
 end Nstd.Future
